@@ -6,6 +6,8 @@ CONSTANTS
   MaxPad = 2
   MaxGetter = 4
   MaxPath = 3
+  MaxHist = 3
+INVARIANT HistoryIndependent
 INVARIANT Precedence
 INVARIANT FilesInOrder
 INVARIANT AppendExtends
